@@ -85,12 +85,40 @@ struct Found {
     back_edge: bool,
 }
 
-/// walk a block; `after` = variables read in the continuation of the block (everything executed after it,
-/// over-approximated syntactically, including later iterations of enclosing loops)
+/// variables read after position `i` of block `b` before being unconditionally reassigned at this block level
+/// (`v = …` as a direct statement of the block kills `v` for the rest of the block and for the enclosing
+/// continuation `after`)
+fn continuation(b: &[Stmt], i: usize, after: &BTreeSet<usize>) -> BTreeSet<usize> {
+    let mut cont = BTreeSet::new();
+    let mut killed = BTreeSet::new();
+    for s in &b[i + 1..] {
+        let mut r = BTreeSet::new();
+        reads(std::slice::from_ref(s), &mut r);
+        for v in r {
+            if !killed.contains(&v) {
+                cont.insert(v);
+            }
+        }
+        match s {
+            Stmt::Assign(x, _) | Stmt::AssignVar(x, _) => {
+                killed.insert(*x);
+            }
+            _ => {}
+        }
+    }
+    for v in after {
+        if !killed.contains(v) {
+            cont.insert(*v);
+        }
+    }
+    cont
+}
+
+/// walk a block; `after` = variables read in the continuation of the block (everything executed after it, before an
+/// unconditional reassignment; over-approximated syntactically, including later iterations of enclosing loops)
 fn scan(b: &[Stmt], after: &BTreeSet<usize>, f: &mut Found) {
     for (i, s) in b.iter().enumerate() {
-        let mut cont = after.clone();
-        reads(&b[i + 1..], &mut cont);
+        let cont = continuation(b, i, after);
         match s {
             Stmt::If(_, t, ei, e) => {
                 scan(t, &cont, f);
@@ -102,17 +130,29 @@ fn scan(b: &[Stmt], after: &BTreeSet<usize>, f: &mut Found) {
                 }
             }
             Stmt::While(_, body) | Stmt::WhileTrue(body) | Stmt::Repeat(body, _) | Stmt::ForNum(_, _, body) | Stmt::ForIn(_, body) => {
+                // a loop whose body can never run cannot fail
+                let never_runs = match s {
+                    Stmt::ForNum(a, z, _) => a > z,
+                    Stmt::ForIn(n, _) => *n == 0,
+                    _ => false,
+                };
                 let mut a = BTreeSet::new();
                 assigned(body, &mut a);
                 let mut inside = BTreeSet::new();
                 reads(std::slice::from_ref(s), &mut inside);
-                if a.iter().any(|x| inside.contains(x)) {
+                // with at most one iteration there is no later iteration that could read an earlier one's value
+                let at_most_once = match s {
+                    Stmt::ForNum(a, z, _) => a >= z,
+                    Stmt::ForIn(n, _) => *n <= 1,
+                    _ => false,
+                };
+                if !never_runs && !at_most_once && a.iter().any(|x| inside.contains(x)) {
                     f.back_edge = true;
                 }
                 let read_after = a.iter().any(|x| cont.contains(x));
                 match s {
                     Stmt::While(..) if read_after => f.while_exit = true,
-                    Stmt::ForIn(n, _) if read_after && *n > 0 => f.forin_exit = true,
+                    Stmt::ForIn(..) if read_after && !never_runs => f.forin_exit = true,
                     _ => {}
                 }
                 // the body's continuation: the rest of the loop (next iterations) and what follows the loop
